@@ -307,6 +307,13 @@ structure ShellFiles where
   allPorts : List (Port × InterfaceD)
   grantIndex : Option Nat
 
+/-- the quoted includes of the shell header: the Dezyne-generated header of the model file, the
+    strict-port support header and, for a multi-client shell, the log and selector support headers -/
+def shellProjectIncludes (cfg : Config) (orig : Str) : List Str :=
+  [orig ++ L ".hh", (createHeader .strictPort cfg.pfx).filename] ++
+  (if cfg.ports.multiclient.isSome then
+    [(createHeader .ilog cfg.pfx).filename, (createHeader .multiClientSelector cfg.pfx).filename] else [])
+
 /-- everything `Builder.build` does except collecting the result list -/
 def buildShell (fc : FC) (cfg : Config) : R ShellFiles := do
   -- prechecks
@@ -331,8 +338,7 @@ def buildShell (fc : FC) (cfg : Config) : R ShellFiles := do
   let headerComments : Content := commentOf (.list [cfg.copyright, .str (L "\n"), .str (L "Advanced Shell"), .str (L "\n"),
       .str (creatorInfoOverview cfg), .str (L "\n"), .str (configurationOverview cfg orig shellName), .str (L "\n"),
       .str (finalPortOverview pp rp), .str Lit.doNotModify])
-  let projIncludes := [orig ++ L ".hh", fileOf .strictPort] ++
-      (if cfg.ports.multiclient.isSome then [fileOf .ilog, fileOf .multiClientSelector] else [])
+  let projIncludes := shellProjectIncludes cfg orig
   let header : Content := .list [headerComments, .str (L "\n"), .obj (systemIncludesStr fac.systemIncludes),
       .obj (projectIncludesStr projIncludes), .str (L "\n")]
   let publicSection : Content := .list [
